@@ -146,7 +146,7 @@ def check(ctx):
             name_t = ("iter", it)
             ec = ("a", ("s", it, name_t), "error_code")
             mask = ("call", ("g", "numpy.any"), (cmp_("!=", ec, c(0)),), (("axis", c(0)),))
-            want_tr = ("s", ("call", ("g", "numpy.where"), (mask,), ()), c(0))
+            want_tr = ("proj", ("call", ("g", "numpy.where"), (mask,), ()), 0)
             full = ("slice", c(None), c(None), c(None))
             ok = (ident == name_t and transition == want_tr and codes_t is not None
                   and codes_t[0] == "s" and codes_t[2] == ("tuple", (full, mask))
